@@ -26,6 +26,10 @@ STEP_LIMIT = 200000
 MAX_FAILS_PER_KIND = 5       # a block case reports at most this many failing inputs per kind of failure
 HXDIR = os.path.dirname(os.path.dirname(os.path.abspath(__file__)))      # .../hxverif
 
+# delivery-channel differential (core.Env): of every 4 evaluations that bind variables, one is repeated with the
+# values handed in by the cell/range listeners and one with the values returned by custom functions; outcomes must agree
+CHANNELS = 4
+
 BOUNDS = {
     'quick': 'ROUND/ROUNDUP/ROUNDDOWN: {k/4:|k|<=40} + float-typed integers + 34 decimal fractions + integers '
              '-250..250, digits -6..6 (variables; literals for digits -1,0,2); CEILING/FLOOR: same numbers x '
